@@ -31,7 +31,7 @@ func checkC08(tier string) int {
 	states := []string{"inflight", "queued", "deferred", "expired"}
 	memqs := []int64{10, 0}
 	ephs := []bool{false, true}
-	secs := 5
+	secs := 3
 	if tier == "thorough" {
 		secs = 120
 	}
@@ -73,7 +73,7 @@ func checkC08(tier string) int {
 	for _, st := range []string{"inflight", "queued", "none"} {
 		specs = append(specs, nsqd.MicroSpec{State: st, Eph: true, MemQ: 10, Ops: []string{"disc1", "disc2", "sub3"}})
 	}
-	triples := [][]string{{"del_ch", "pub", "sub3"}, {"empty_ch", "fin1", "scan"}, {"disc1", "sub3", "pub"}, {"del_topic", "pub", "sub3"}, {"empty_ch", "req1", "rdy2"}}
+	triples := [][]string{{"del_ch", "create_ch2", "pub"}, {"del_ch", "pub", "sub3"}, {"empty_ch", "fin1", "scan"}, {"disc1", "sub3", "pub"}, {"del_topic", "pub", "sub3"}, {"empty_ch", "req1", "rdy2"}}
 	for _, tr := range triples {
 		for _, eph := range ephs {
 			specs = append(specs, nsqd.MicroSpec{State: "inflight", Eph: eph, MemQ: 10, Ops: tr})
@@ -172,6 +172,15 @@ func checkC02(tier string) int {
 	for _, mq := range []int64{10, 0} {
 		for _, op := range []string{"got2_req2d", "got2_req2", "got2_fin2", "got2_touch2"} {
 			specs = append(specs, nsqd.MicroSpec{State: "defexp", MemQ: mq, Unbuf: true, Ops: []string{"scan", op}})
+		}
+	}
+	// the holder's connection breaks while it is being sent more: what it held stays in
+	// flight until its timeout (nothing is handed to another consumer early)
+	for _, st := range []string{"inflight", "queued"} {
+		for _, un := range []bool{true, false} {
+			for _, op := range []string{"rdy2", "rdy2_2", "pub"} {
+				specs = append(specs, nsqd.MicroSpec{State: st, MemQ: 10, Unbuf: un, Ops: []string{"rdydisc1", op}})
+			}
 		}
 	}
 	runMicros(rep, specs, secs, false)
